@@ -109,6 +109,7 @@ def limit(mem_gb):
 
 
 CHILDREN = set()
+NORMALISED = set()
 
 
 def kill_children(*_a):
@@ -156,6 +157,14 @@ def prepare_goto(meta, wdir):
         p = subprocess.run(s, stdout=subprocess.PIPE, stderr=subprocess.STDOUT, text=True)
         if p.returncode != 0:
             return None, p.stdout[-2000:]
+    # Loop normalisation as Kani does it.  On ark-ff's 12-fold unrolled trait-default loops this pass can exhaust memory
+    # (DESIGN.md 2.1), so it runs under a cap; if it does not finish the un-normalised program is analysed instead, which
+    # is still sound with unwinding assertions on but may produce spurious `unwind` verdicts (never spurious passes).
+    w2 = f'{wdir}/h_norm.out'
+    rc, _o, _e, _t, st = run([f'{BIN}/goto-instrument', '--ensure-one-backedge-per-target', w, w2], 180, 8)
+    if st == 'done' and rc == 0 and os.path.exists(w2):
+        NORMALISED.add(wdir)
+        return w2, ''
     return w, ''
 
 
@@ -226,7 +235,7 @@ def run_K(h, meta, wdir, timeout, mem_gb):
         cmd += ['--unwindset', resolve_unwindset(w, h['opts']['unwindset'])]
     cmd += ['--sat-solver', 'cadical', '--slice-formula', w, '--json-ui']
     rc, out, errt, wall, st = run(cmd, timeout, mem_gb)
-    r = dict(time=wall, engine='K', functions=list_functions(w), cmd=' '.join(cmd[:1] + cmd[1:]))
+    r = dict(time=wall, engine='K', functions=list_functions(w), cmd=' '.join(cmd[:1] + cmd[1:]), normalised=wdir in NORMALISED)
     if st == 'timeout':
         r.update(verdict='timeout', detail=f'CBMC exceeded {timeout}s')
         return r
@@ -296,7 +305,7 @@ def run_W(h, meta, wdir, timeout, mem_gb):
     t0 = time.time()
     smt = f'{wdir}/q.smt2'
     rc, out, errt, wall, st = run(base + ['--property', main, '--smt2', '--outfile', smt, w], timeout, mem_gb)
-    r = dict(engine='W', functions=list_functions(w), main_property=main)
+    r = dict(engine='W', functions=list_functions(w), main_property=main, normalised=wdir in NORMALISED)
     if st == 'timeout' or not os.path.exists(smt):
         r.update(verdict='timeout' if st == 'timeout' else 'error', detail='SMT export failed ' + errt[-300:], time=time.time() - t0)
         return r
@@ -610,7 +619,7 @@ def main():
         h = r['harness']
         samples.append(dict(harness=h['name'], domain=h['desc'], engine=r.get('engine', h['opts'].get('engine', 'K')), unwind=h['unwind'],
                             verdict=r['verdict'], kind=h['kind'], solver_s=round(r.get('time', 0), 1), checks=r.get('checks', 0),
-                            covers_satisfied=r.get('covers_sat', 0), **({'known_finding': r['known']} if 'known' in r else {})))
+                            covers_satisfied=r.get('covers_sat', 0), loops_normalised=r.get('normalised', False), **({'known_finding': r['known']} if 'known' in r else {})))
     ev = dict(
         property_id=pid, tier=tier, seed=seed, level='model_checking',
         coverage=dict(
@@ -633,7 +642,7 @@ def main():
             'bounded: every loop fully unwound up to the per-harness bound, unwinding assertions ON (a too-small bound is reported, not truncated)',
             'instantiations are the ones named in each sample; other instantiations of the same generic code are outside the claim',
             'Kani models the dev profile with overflow checks on; CBMC flags as Kani passes them (--no-malloc-may-fail, --object-bits 16)',
-            'goto-instrument --ensure-one-backedge-per-target skipped (loop-contract normalisation only; see DESIGN.md 2.1)',
+            'goto-instrument --ensure-one-backedge-per-target is run under an 8 GB / 180 s cap; harnesses where it does not finish (sample field loops_normalised=false) are analysed un-normalised, which can only cause spurious `unwind` verdicts, not passes',
             '--no-assertion-reach-checks; vacuity is guarded by explicit kani::cover! witnesses instead',
         ],
         wall_s=round(time.time() - t_start, 1), violations=viol_reported,
